@@ -13,6 +13,8 @@ import (
 	"strings"
 	"unicode/utf16"
 
+	"github.com/open2b/scriggo/native"
+
 	"verif/oracle/jsvalue"
 )
 
@@ -59,6 +61,27 @@ func matchJS(rv reflect.Value, got *jsvalue.Value, path string, cl classes) erro
 		return nil
 	}
 	t := rv.Type()
+	if t.Implements(jsStringerType) && rv.CanInterface() {
+		// the type renders itself: the literal is what its JS method returns;
+		// a nil pointer has nothing to call the method on and is null
+		cl.add("JSStringer")
+		if rv.Kind() == reflect.Pointer && rv.IsNil() {
+			cl.add("JSStringer:nil-pointer")
+			if got.Kind != jsvalue.Null {
+				return bad("nil pointer must evaluate to null, got %s", describe(got))
+			}
+			return nil
+		}
+		src := string(rv.Interface().(native.JSStringer).JS())
+		want, err := jsvalue.Parse(src)
+		if err != nil {
+			return bad("harness: JS method returned %q: %v", src, err)
+		}
+		if !sameJSValue(want, got) {
+			return bad("want the value of %s (JS method), got %s", src, describe(got))
+		}
+		return nil
+	}
 	if t == timeType {
 		tt := rv.Interface().(interface{ UnixMilli() int64 })
 		ms := tt.UnixMilli()
@@ -148,21 +171,19 @@ func matchJS(rv reflect.Value, got *jsvalue.Value, path string, cl classes) erro
 			// bytes: Base64 string or array of numbers; nil may also be null
 			b := rv.Bytes()
 			if rv.IsNil() {
+				// nil at every level is null: a nil byte slice is no exception
 				cl.add("bytes:nil")
-				if got.Kind == jsvalue.Null {
-					return nil
+				if got.Kind != jsvalue.Null {
+					return bad("nil byte slice must evaluate to null, got %s", describe(got))
 				}
-			} else {
-				cl.add("bytes")
+				return nil
 			}
+			cl.add("bytes")
 			if got.Kind == jsvalue.String {
 				if got.Str != base64.StdEncoding.EncodeToString(b) {
 					return bad("want Base64 of % x, got %s", b, describe(got))
 				}
 				return nil
-			}
-			if rv.IsNil() {
-				return bad("nil byte slice must evaluate to null or \"\", got %s", describe(got))
 			}
 		}
 		if rv.IsNil() {
@@ -242,16 +263,30 @@ func matchJS(rv reflect.Value, got *jsvalue.Value, path string, cl classes) erro
 		if got.Proto != nil {
 			return bad("the field name \"__proto__\" in an object literal sets the prototype instead of defining a property (ECMA-262 B.3.1)")
 		}
-		if len(got.SrcKeys) != len(fields) {
-			return bad("struct with fields %q evaluates to an object written with keys %q", fieldNamesOf(fields), got.SrcKeys)
-		}
-		for _, f := range fields {
-			m, ok := got.Get(f.name)
-			if !ok {
-				return bad("missing property %q (fields %q, written keys %q)", f.name, fieldNamesOf(fields), got.SrcKeys)
+		matched := make([]bool, len(fields))
+		for ki, key := range got.SrcKeys {
+			found := -1
+			for i, f := range fields {
+				if !matched[i] && (f.name == key || f.alt != "" && f.alt == key) {
+					found = i
+					break
+				}
 			}
-			if err := matchJS(f.val, m, path+"."+f.name, cl); err != nil {
+			if found < 0 {
+				return bad("struct with fields %q evaluates to an object written with keys %q (key %d is unexpected or repeated)", fieldNamesOf(fields), got.SrcKeys, ki)
+			}
+			matched[found] = true
+			m, ok := got.Get(key)
+			if !ok {
+				return bad("property %q written but not defined", key)
+			}
+			if err := matchJS(fields[found].val, m, path+"."+key, cl); err != nil {
 				return err
+			}
+		}
+		for i, f := range fields {
+			if !matched[i] && !f.optional {
+				return bad("missing property %q (fields %q, written keys %q)", f.name, fieldNamesOf(fields), got.SrcKeys)
 			}
 		}
 	default:
@@ -262,19 +297,32 @@ func matchJS(rv reflect.Value, got *jsvalue.Value, path string, cl classes) erro
 
 type field struct {
 	name string
-	val  reflect.Value
+	// alt is a second acceptable property name ("" if none): a tag name that
+	// encoding/json rejects may be used verbatim or replaced by the Go field name.
+	alt string
+	// optional: the field has the omitzero option and is zero. The property
+	// ties json tags to the JSON context; in JavaScript both readings are accepted.
+	optional bool
+	val      reflect.Value
 }
 
 func fieldNamesOf(fs []field) []string {
 	var l []string
 	for _, f := range fs {
-		l = append(l, f.name)
+		n := f.name
+		if f.alt != "" {
+			n += "|" + f.alt
+		}
+		if f.optional {
+			n += "?"
+		}
+		l = append(l, n)
 	}
 	return l
 }
 
-// structModel lists the properties of a struct value: exported fields, json
-// tag name / omitempty / "-" (as documented for encoding/json).
+// structModel lists the properties of a struct value in JavaScript: exported
+// fields, json tag name / omitempty / "-" (as documented for encoding/json).
 func structModel(rv reflect.Value, cl classes) []field {
 	t := rv.Type()
 	var fs []field
@@ -287,8 +335,7 @@ func structModel(rv reflect.Value, cl classes) []field {
 			cl.add("struct:unexported-field")
 			continue
 		}
-		name := sf.Name
-		fv := rv.Field(i)
+		f := field{name: sf.Name, val: rv.Field(i)}
 		if sf.Anonymous {
 			cl.add("struct:embedded-field")
 		}
@@ -298,13 +345,18 @@ func structModel(rv reflect.Value, cl classes) []field {
 				continue
 			}
 			n, opts, _ := strings.Cut(tag, ",")
-			omit := false
+			omit, omitzero := false, false
 			for _, o := range strings.Split(opts, ",") {
-				if o == "omitempty" {
+				switch o {
+				case "omitempty":
 					omit = true
+				case "omitzero":
+					omitzero = true
+				case "string":
+					cl.add("struct:string-option")
 				}
 			}
-			if omit && isEmpty(fv) {
+			if omit && isEmpty(f.val) {
 				if len(fs) == 0 {
 					cl.add("struct:first-field-omitted")
 				}
@@ -314,14 +366,39 @@ func structModel(rv reflect.Value, cl classes) []field {
 			if omit {
 				cl.add("struct:omitempty-kept")
 			}
+			if omitzero {
+				if isZero(f.val) {
+					cl.add("struct:omitzero-zero")
+					f.optional = true
+				} else {
+					cl.add("struct:omitzero-kept")
+				}
+			}
 			if n != "" {
-				cl.add("struct:renamed-field")
-				name = n
+				if validTagName(n) {
+					cl.add("struct:renamed-field")
+					f.name = n
+				} else {
+					cl.add("struct:invalid-tag-name")
+					f.alt = n
+				}
 			}
 		}
-		fs = append(fs, field{name, fv})
+		fs = append(fs, f)
 	}
 	return fs
+}
+
+// isZero: omitzero omits a field whose value is zero, according to its IsZero
+// method if it has one (encoding/json documentation).
+func isZero(v reflect.Value) bool {
+	if z, ok := v.Interface().(interface{ IsZero() bool }); ok {
+		if v.Kind() == reflect.Pointer && v.IsNil() {
+			return true
+		}
+		return z.IsZero()
+	}
+	return v.IsZero()
 }
 
 // isEmpty: "false, 0, a nil pointer, a nil interface value, and any array,
@@ -345,6 +422,42 @@ func isEmpty(v reflect.Value) bool {
 }
 
 var stringerType = reflect.TypeFor[fmt.Stringer]()
+var jsStringerType = reflect.TypeFor[native.JSStringer]()
+
+// sameJSValue reports whether two evaluated literals are the same data.
+func sameJSValue(a, b *jsvalue.Value) bool {
+	if a.Kind != b.Kind {
+		return false
+	}
+	switch a.Kind {
+	case jsvalue.Bool:
+		return a.Bool == b.Bool
+	case jsvalue.Number, jsvalue.Date:
+		return a.Num == b.Num || a.Num != a.Num && b.Num != b.Num
+	case jsvalue.String:
+		return a.Str == b.Str && a.LoneSurrogate == b.LoneSurrogate
+	case jsvalue.Array:
+		if len(a.Arr) != len(b.Arr) {
+			return false
+		}
+		for i := range a.Arr {
+			if !sameJSValue(a.Arr[i], b.Arr[i]) {
+				return false
+			}
+		}
+	case jsvalue.Object:
+		if len(a.Obj) != len(b.Obj) || (a.Proto == nil) != (b.Proto == nil) {
+			return false
+		}
+		for _, m := range a.Obj {
+			o, ok := b.Get(m.Key)
+			if !ok || !sameJSValue(m.Val, o) {
+				return false
+			}
+		}
+	}
+	return true
+}
 
 func hasStringMethod(t reflect.Type) bool { return t.Implements(stringerType) }
 
@@ -616,7 +729,13 @@ func sameJSON(want, got any, path string) error {
 			return fmt.Errorf("at %s: want %v, got %s", path, w, jsonDescribe(got))
 		}
 	case string:
-		if g, ok := got.(string); !ok || g != w {
+		g, ok := got.(string)
+		if ok && g != w && sameQuotedJSON(w, g) {
+			// a field with the ",string" option: the string holds the JSON text of a scalar, and
+			// "1e+22" / "10000000000000000000000" or "\"'\"" / "\"\\u0027\"" are the same scalar
+			return nil
+		}
+		if !ok || g != w {
 			return fmt.Errorf("at %s: want string %q, got %s", path, w, jsonDescribe(got))
 		}
 	case json.Number:
@@ -655,6 +774,35 @@ func sameJSON(want, got any, path string) error {
 		return fmt.Errorf("at %s: unexpected reference value %T", path, want)
 	}
 	return nil
+}
+
+// sameQuotedJSON reports whether two different strings are both the JSON text
+// of one scalar (number, string, boolean) and denote the same scalar.
+func sameQuotedJSON(a, b string) bool {
+	scalar := func(s string) (any, bool) {
+		if s == "" || strings.TrimSpace(s) != s || !strings.ContainsRune("-0123456789\"tf", rune(s[0])) || !json.Valid([]byte(s)) {
+			return nil, false
+		}
+		v, err := decodeNumber([]byte(s))
+		return v, err == nil
+	}
+	va, ok1 := scalar(a)
+	vb, ok2 := scalar(b)
+	if !ok1 || !ok2 {
+		return false
+	}
+	switch x := va.(type) {
+	case json.Number:
+		y, ok := vb.(json.Number)
+		return ok && sameNumber(string(x), string(y))
+	case string:
+		y, ok := vb.(string)
+		return ok && x == y
+	case bool:
+		y, ok := vb.(bool)
+		return ok && x == y
+	}
+	return false
 }
 
 func sortedKeys(m map[string]any) []string {
